@@ -33,6 +33,13 @@ def pparse : Handler := fun j => do
     let m := String.ofList (labels.map (fun l => if p.matches l then '1' else '0'))
     pure (Json.mkObj [("ok", Json.bool true), ("pat", jPattern p), ("str", jBytes p.toBytes), ("m", Json.str m)])
 
+/-- {"op":"label.short","pkg":..,"name":..} → {"short":bool,"str":..} -/
+def short : Handler := fun j => do
+  let pkg ← getBytes j "pkg"
+  let name ← getBytes j "name"
+  let l : Grog.Label := ⟨pkg, name⟩
+  pure (Json.mkObj [("short", Json.bool l.canBeShortened), ("str", jBytes l.toBytes)])
+
 def uniLabels (j : Json) : Except String (List Grog.Label) := do
   let u ← j.getObjVal? "uni"
   let pkgs ← getBytesList u "pkgs"
@@ -61,6 +68,6 @@ def fromLabel : Handler := fun j => do
   pure (Json.mkObj [("pat", jPattern p), ("str", jBytes p.toBytes), ("m", Json.str m)])
 
 def handlers : List (String × Handler) :=
-  [("label.parse", parse), ("pattern.parse", pparse), ("patterns.parse", psparse), ("pattern.fromlabel", fromLabel)]
+  [("label.parse", parse), ("label.short", short), ("pattern.parse", pparse), ("patterns.parse", psparse), ("pattern.fromlabel", fromLabel)]
 
 end Grog.Drv.Label
